@@ -261,6 +261,10 @@ impl RuntimeData {
         for obj_ptr in std::mem::take(&mut self.object_list).into_iter() {
             self.free_object(obj_ptr);
         }
+        #[cfg(feature = "verif-hooks")]
+        for obj_ptr in crate::verif::take_quarantined() {
+            self.free_object(obj_ptr);
+        }
     }
 
     pub fn set_memory_limit(&mut self, capacity: usize) {
@@ -292,6 +296,8 @@ impl RuntimeData {
 
     pub fn gc(&mut self) {
         debug!("• GC");
+        #[cfg(feature = "verif-hooks")]
+        crate::verif::gc_started();
         // mark all roots for collection
         let mut progress_tracker = Vec::with_capacity(self.value_stack.len());
         for val in self.value_stack.iter() {
@@ -378,6 +384,10 @@ impl RuntimeData {
         }
         for i in collected.into_iter().rev() {
             let obj = self.object_list.swap_remove(i);
+            #[cfg(feature = "verif-hooks")]
+            if crate::verif::quarantine(obj) {
+                continue;
+            }
             self.free_object(obj);
         }
         // unmark remaning objects
